@@ -551,28 +551,3 @@ Proof.
   unfold number_name_for. destruct (lookup names (follow st x)) as [n|] eqn:L; [|reflexivity].
   apply (g_ren _ _ _ G) in L. unfold rnb in L. congruence.
 Qed.
-
-(* ---- a pinned name of a nested scope is invisible to the number renamer ----
-   assignName skips pinned symbols without recording their names in the
-   numberScope, and ComputeReservedNames does not reserve pinned names of nested
-   scopes outside direct-eval chains (names referenced inside `with`).  A
-   numbered suffix can therefore land on such a name.  Witness (replayed on the
-   real code by the fixed corpus, scenario
-   with-pinned-nested-name-captured-by-numbered-name): free global "e" (0),
-   "e2" pinned in a function scope (1), a parameter "e" below it (2). *)
-Definition np_syms : symtab :=
-  [mkSym [101] NsPinned None false 0 0; mkSym [101; 50] NsPinned None false 0 1;
-   mkSym [101] NsDefault None false 0 2].
-Definition np_module : scope :=
-  Scope [0%nat] [] None false [Scope [1%nat] [] None false [Scope [2%nat] [] None false []]].
-Definition np_names : option (name * name) :=
-  match number_rename 100 np_syms (ComputeReservedNames np_syms [np_module]) [0%nat] (sc_children np_module) with
-  | Some names => Some (number_name_for np_syms names 1, number_name_for np_syms names 2)
-  | None => None
-  end.
-
-Lemma number_pinned_nested_collision :
-  wf_number np_syms [0%nat] (sc_children np_module) = true /\
-  In [2%nat; 1%nat; 0%nat] (vis_forest np_syms (sc_children np_module) (map (follow np_syms) [0%nat])) /\
-  np_names = Some ([101; 50], [101; 50]).
-Proof. split; [vm_compute; reflexivity | split; [vm_compute; auto | vm_compute; reflexivity]]. Qed.
